@@ -59,6 +59,9 @@ def _snapshots(ctx, T, N, d=None, watch=None):
             attrs["positions"] = mk(POS, (N, d), "positions")
             attrs["boxbounds"] = mk(BB, (d, 2), "boxbounds")
             attrs["hmatrix"] = mk(HM, (d, d), "hmatrix")
+            # every frame's cell is non-singular (precondition of the minimum-image contract C02), instantiated per frame
+            Hm = [[sv.SV(HM(fz, z3.IntVal(a), z3.IntVal(b))) for b in range(d)] for a in range(d)]
+            _file_fact(sv.cmp("!=", A.det_small(Hm, d), 0))
         return new_obj(cls, attrs, frozen=True)
     lst = Ref(cur().alloc(Content("list", A.SeqVal(T, frame))), "list")
     snaps = ctx.obj(RU, "Snapshots", {"nsnapshots": T, "snapshots": lst})
@@ -67,6 +70,32 @@ def _snapshots(ctx, T, N, d=None, watch=None):
 
 def _inr(*pairs):
     return sv.and_(*[sv.and_(sv.cmp(">=", x, 0), sv.cmp("<", x, n)) for x, n in pairs])
+
+
+def _resolve_ite(v, assumptions):
+    """v = If(c, a, b) with c decided by the assumptions -> the live branch (sound rewriting under these assumptions)"""
+    v = sv.norm(v)
+    for _ in range(8):
+        if not isinstance(v, sv.SV) or not (z3.is_app(v.t) and v.t.decl().kind() == z3.Z3_OP_ITE):
+            return v
+        c, a, b = v.t.children()
+        s = z3.Solver()
+        s.set("timeout", 2000)
+        for f in assumptions:
+            s.add(f)
+        s.push()
+        s.add(z3.Not(c))
+        r = s.check()
+        s.pop()
+        if r == z3.unsat:
+            v = sv.wrap(a)
+            continue
+        s.add(c)
+        if s.check() == z3.unsat:
+            v = sv.wrap(b)
+            continue
+        return v
+    return v
 
 
 def _stores(out, sids):
@@ -440,7 +469,315 @@ def _replay_spatial(case, clause, model, seed):
     return {"ran": True, "failed": False, "searched": tried, "detail": "real code satisfies every clause on the seeded inputs"}
 
 
-UNITS = [TimeAverage(), SpatialAverage()]
+# ------------------------------------------------------------------------------------------------
+# grid_gaussian / gaussian_blurring
+
+FU = "PyMatterSim.utils.funcs"
+PBC = "PyMatterSim.utils.pbc.remove_pbc"
+
+
+def gauss_spec(x, sigma, M=sv):
+    """normalised Gaussian of the docs: exp(-x^2 / (2 sigma^2)) / sqrt(2 pi sigma^2)"""
+    two_s2 = M.mul(2, M.mul(sigma, sigma))
+    return M.div(M.exp(M.div(M.neg(M.mul(x, x)), two_s2)), M.sqrt(M.mul(two_s2, M.PI)))
+
+
+class GridGaussian(Unit):
+    module = FU
+    qualname = "grid_gaussian"
+    prop = "C16"
+
+    def setup(self, ctx, case):
+        m = ctx.int("m")
+        ctx.assume(m >= 0)
+        sigma = ctx.real("sigma")
+        ctx.assume(sigma > 0)
+        D = ctx.array("dist", (m,), "float", origin="argument distances")
+        return [D, sigma], {}, dict(m=m, sigma=sigma, D=D, watch=[D.sid])
+
+    def clause_names(self, case):
+        return ["shape", "normalised-gaussian:exp(-x^2/2s^2)/sqrt(2 pi s^2)", "frame:input-not-written"]
+
+    def ensures(self, ctx, case, inp, out):
+        res = out.value
+        ok = isinstance(res, A.Arr) and res.ndim == 1
+        yield "shape", ok and sv.cmp("==", res.shape[0], inp["m"])
+        if not ok:
+            return
+        t = ctx.int("t")
+        yield ("normalised-gaussian:exp(-x^2/2s^2)/sqrt(2 pi s^2)",
+               sv.implies(_inr((t, inp["m"])), sv.cmp("==", res.get((t,)), gauss_spec(inp["D"].get((t,)), inp["sigma"]))))
+        yield "frame:input-not-written", len(_stores(out, inp["watch"])) == 0
+
+    def replay(self, case, clause, model, seed):
+        import importlib
+        import math
+
+        import numpy as np
+        F = importlib.import_module(FU)
+        rng = np.random.default_rng(seed)
+        for k in range(200):
+            sigma = _fr(model.get("sigma")) if k == 0 and _fr(model.get("sigma")) else float(rng.uniform(0.2, 5))
+            x = rng.uniform(0, 8, size=int(rng.integers(0, 6)))
+            got = F.grid_gaussian(x.copy(), sigma)
+            want = np.array([math.exp(-v * v / (2 * sigma * sigma)) / math.sqrt(2 * math.pi * sigma * sigma) for v in x])
+            if got.shape != want.shape or not np.allclose(got, want, rtol=1e-9, atol=1e-300):
+                return {"ran": True, "failed": True, "searched": k + 1, "inputs": {"distances": x.tolist(), "sigma": sigma},
+                        "detail": f"got {np.asarray(got).tolist()}, normalised Gaussian is {want.tolist()}"}
+        return {"ran": True, "failed": False, "searched": 200, "detail": "real code equals the normalised Gaussian on the seeded inputs"}
+
+
+def remove_pbc_contract(interp, args, kwargs):
+    """callee contract of remove_pbc (proved by contracts/C02.py against the real body): requires det H != 0 and a 0/1 mask;
+    row r -> sum_k (m_k - rint(m_k) ppp_k) H[k,:],  m = r H^-1"""
+    from contracts import C02
+    RIJ, H = args[0], args[1]
+    ppp = kwargs.get("ppp", args[2] if len(args) > 2 else None)
+    if ppp is None or not isinstance(RIJ, A.Arr) or RIJ.ndim != 2:
+        raise sv.EngineError("remove_pbc contract: unexpected call shape")
+    d = A.conc_dim(RIJ.shape[1])
+    Hm = A.to_list(H)
+    pl = A.to_list(ppp)
+    if len(Hm) != d or len(pl) != d:
+        cur().require(False, "call:remove_pbc:pre:shapes")
+    det, G = C02._inv_spec(Hm, d)
+    cur().require(sv.cmp("!=", det, 0), "call:remove_pbc:pre:cell-nonsingular")
+    for pk in pl:
+        cur().require(sv.or_(sv.cmp("==", pk, 0), sv.cmp("==", pk, 1)), "call:remove_pbc:pre:mask-is-0/1")
+    rr = RIJ.reader()
+
+    def elem(idx):
+        row = [rr((idx[0], c)) for c in range(d)]
+        out = C02.pbc_spec_row(row, Hm, G, pl, d)
+        return A._pick(out, idx[1])
+    return A.new_arr(RIJ.shape, elem, "float")
+
+
+def _min_image_dist(gp_row, pos_row, Hm, pl, d):
+    """|D| with D = minimum image (C02 contract) of grid point - particle position"""
+    from contracts import C02
+    det, G = C02._inv_spec(Hm, d)
+    D = C02.pbc_spec_row([sv.sub(gp_row[c], pos_row[c]) for c in range(d)], Hm, G, pl, d)
+    s = 0
+    for c in range(d):
+        s = sv.add(s, sv.mul(D[c], D[c]))
+    return sv.sqrt(s)
+
+
+class GaussianBlurring(Unit):
+    module = MOD
+    qualname = "gaussian_blurring"
+    prop = "C16"
+    timeout = 30
+    summaries = {PBC: remove_pbc_contract}
+    solver_opts = {"ext_all": True}
+
+    def __init__(self):
+        from pyvc.loops import scatter_nest_rule
+        self.loop_hints = {(MOD + ".gaussian_blurring", "for", "*"): scatter_nest_rule}
+
+    def cases(self):
+        return [f"d={d}/rank{r}" for d in (2, 3) for r in (0, 1, 2)] + ["d=2/rank0/outputfile"]
+
+    def setup(self, ctx, case):
+        parts = case.split("/")
+        d, rank = int(parts[0][2]), int(parts[1][4])
+        T, N = ctx.int("T"), ctx.int("N")
+        ctx.assume(T >= 1)
+        ctx.assume(N >= 1)
+        watch = []
+        snaps, F = _snapshots(ctx, T, N, d=d, watch=watch)
+        dims = [ctx.int(f"d{k}") for k in range(rank)]
+        for dd in dims:
+            ctx.assume(dd >= 1)
+        C = ctx.array("A", tuple([T, N] + dims), "float", origin="argument condition")
+        ng = [ctx.int(f"n{k}") for k in range(d)]
+        for g in ng:
+            ctx.assume(g >= 2)          # "equally spaced points spanning the box bounds": at least the two end points
+        ngrids = A.from_nested(ng, "int")
+        ctx.state.origin[ngrids.sid] = "argument ngrids"
+        pl = [ctx.int(f"ppp{k}") for k in range(3)]
+        for pk in pl:
+            ctx.assume(sv.or_(sv.cmp("==", pk, 0), sv.cmp("==", pk, 1)))
+        ppp = A.from_nested(pl, "int")
+        ctx.state.origin[ppp.sid] = "argument ppp"
+        sigma, cut = ctx.real("sigma"), ctx.real("cut")
+        ctx.assume(sigma > 0)
+        ctx.assume(cut > 0)
+        outp = "gb" if len(parts) > 2 else ""
+        watch += [C.sid, ngrids.sid, ppp.sid]
+        inp = dict(d=d, rank=rank, T=T, N=N, dims=dims, C=C, ng=ng, pl=pl[:d], sigma=sigma, cut=cut, F=F, watch=watch, outputfile=outp)
+        return [snaps, C, ngrids], {"sigma": sigma, "ppp": ppp, "gaussian_cut": cut, "outputfile": outp}, inp
+
+    GRID = ["grid:loops-run-over-all-n0*n1(*n2)-index-tuples", "grid:flat-index-inside-[0,prod-n)", "grid:each-point-exactly-once(index-injective)",
+            "grid:x-slowest-row-major-order", "grid:stored-point=(X_i,Y_j[,Z_k])-equally-spaced-over-box-bounds"]
+
+    def clause_names(self, case):
+        return ["shape", "grid:construction-is-a-scatter-store-nest"] + self.GRID + \
+            ["value:sum-over-particles-within-cutoff-of-normalised-gaussian(min-image-distance)*property", "frame:inputs-not-written",
+             "saved-files=returned"]
+
+    def ensures(self, ctx, case, inp, out):
+        d, T, N, dims, C, ng = inp["d"], inp["T"], inp["N"], inp["dims"], inp["C"], inp["ng"]
+        res = out.value
+        G = 1
+        for g in ng:
+            G = sv.mul(G, g)
+        ok = isinstance(res, tuple) and len(res) == 2 and all(isinstance(x, A.Arr) for x in res) and res[0].ndim == 3 and res[1].ndim == 2 + len(dims)
+        if not ok:
+            yield "shape", False
+            return
+        GP, GV = res
+        yield "shape", sv.and_(*([sv.cmp("==", a, b) for a, b in zip(GP.shape, [T, G, d])] + [sv.cmp("==", a, b) for a, b in zip(GV.shape, [T, G] + dims)]))
+        # ---- grid construction: clauses on the probe of the real store  grid_positions[n, indice] = [X[i], Y[j](, Z[k])]
+        probes = [p for p in getattr(ctx.interp, "probes", []) if p["depth"] == d and len(p["shape"]) == 3]
+        yield "grid:construction-is-a-scatter-store-nest", len(probes) >= 1
+        if probes:
+            pr = probes[-1]
+            asm = z3.And(*pr["assumptions"])
+            eq = {k.get_id(): v for k, v in pr["equalities"]}
+            i0, i1, i2 = pr["idx"]
+            have = i0.t.get_id() in eq and i1.t.get_id() in eq
+            if not have:
+                for cn in self.GRID:
+                    yield cn, False
+            else:
+                frame_t, flat = sv.wrap(eq[i0.t.get_id()]), sv.wrap(eq[i1.t.get_id()])
+                lv = pr["loop_vars"]
+
+                def under(goal):
+                    return z3.Implies(asm, sv.zb(goal) if not isinstance(goal, bool) else z3.BoolVal(goal))
+                yield self.GRID[0], under(sv.and_(*[sv.and_(sv.cmp("==", l, 0), sv.cmp("==", h, ng[k])) for k, (v, l, h) in enumerate(lv)]))
+                TE = {"try_eval": True}     # a wrong index formula is refuted by an exact integer assignment before SMT is tried
+                yield self.GRID[1], under(sv.and_(sv.cmp(">=", flat, 0), sv.cmp("<", flat, G))), TE
+                # injective: a second index tuple in the same ranges with the same flat index is the same tuple
+                primed = [ctx.int(f"v{k}'") for k in range(d)]
+                flat2 = sv.wrap(z3.substitute(flat.t, *[(v.t, q.t) for (v, _, _), q in zip(lv, primed)]))
+                rng2 = sv.and_(*[sv.and_(sv.cmp(">=", q, 0), sv.cmp("<", q, ng[k])) for k, q in enumerate(primed)])
+                yield self.GRID[2], under(sv.implies(sv.and_(rng2, sv.cmp("==", flat, flat2)),
+                                                     sv.and_(*[sv.cmp("==", v, q) for (v, _, _), q in zip(lv, primed)]))), TE
+                rm = lv[0][0]
+                for k in range(1, d):
+                    rm = sv.add(sv.mul(rm, ng[k]), lv[k][0])
+                yield self.GRID[3], under(sv.cmp("==", flat, rm)), TE
+                BB = inp["F"]["BB"]
+                pts = []
+                for c in range(d):
+                    lo_c = sv.SV(BB(frame_t.t, z3.IntVal(c), z3.IntVal(0)))
+                    hi_c = sv.SV(BB(frame_t.t, z3.IntVal(c), z3.IntVal(1)))
+                    want = sv.add(lo_c, sv.mul(lv[c][0], sv.div(sv.sub(hi_c, lo_c), sv.sub(ng[c], 1))))
+                    got = sv.wrap(z3.substitute(sv.znum(pr["val"]), (i2.t, z3.IntVal(c))))
+                    pts.append(sv.cmp("==", got, want))
+                yield self.GRID[4], under(sv.and_(*pts))
+        # ---- values at the returned grid points
+        n, p = ctx.int("n"), ctx.int("p")
+        tr = [ctx.int(f"a{k}") for k in range(len(dims))]
+        rng = _inr((n, T), (p, G), *zip(tr, dims))
+        F = inp["F"]
+        Hm = [[sv.SV(F["HM"](n.t, z3.IntVal(a), z3.IntVal(b))) for b in range(d)] for a in range(d)]
+        # the returned point, read under the index ranges of the clause (picks the branch of the engine's case split on the indices)
+        gp_row = [_resolve_ite(GP.get((n, p, c)), out.state.all_assumptions() + [sv.zb(rng)]) for c in range(d)]
+        cr = C.reader()
+        sigma, cut = inp["sigma"], inp["cut"]
+
+        def term(q):
+            pos_row = [sv.SV(F["POS"](n.t, sv.znum(q), z3.IntVal(c))) for c in range(d)]
+            r = _min_image_dist(gp_row, pos_row, Hm, inp["pl"], d)
+            return sv.ite(sv.cmp("<", r, cut), lambda: sv.mul(gauss_spec(r, sigma), cr(tuple([n, q] + tr))), 0)
+        want = Sum(0, N, term)
+        yield ("value:sum-over-particles-within-cutoff-of-normalised-gaussian(min-image-distance)*property",
+               sv.implies(rng, sv.cmp("==", GV.get(tuple([n, p] + tr)), want)))
+        yield "frame:inputs-not-written", len(_stores(out, inp["watch"])) == 0
+        saves = [e for e in out.state.trace if e[0] == "np.save"]
+        if inp["outputfile"]:
+            good = len(saves) == 2 and saves[0][1] == inp["outputfile"] + "_positions.npy" and saves[1][1] == inp["outputfile"] + "_properties.npy"
+            if good:
+                c_ = ctx.int("c")
+                good = sv.and_(sv.implies(sv.and_(rng, _inr((c_, d))), sv.cmp("==", saves[0][2].get((n, p, c_)), GP.get((n, p, c_)))),
+                               sv.implies(rng, sv.cmp("==", saves[1][2].get(tuple([n, p] + tr)), GV.get(tuple([n, p] + tr)))))
+            yield "saved-files=returned", good
+        else:
+            yield "saved-files=returned", len(saves) == 0
+
+    def replay(self, case, clause, model, seed):
+        return _replay_blur(case, clause, model, seed)
+
+
+def _replay_blur(case, clause, model, seed):
+    import importlib
+    import itertools
+    import math
+
+    import numpy as np
+    P = importlib.import_module(MOD)
+    parts = case.split("/")
+    d, rank = int(parts[0][2]), int(parts[1][4])
+    rng = np.random.default_rng(seed)
+    tried = 0
+    cands = []
+    mg = [model.get(f"n{k}") for k in range(d)]
+    if all(isinstance(g, int) and 2 <= g <= 7 for g in mg):
+        cands.append(tuple(mg))
+    cands += [tuple(g) for g in itertools.product((2, 3), repeat=d)] + [(5, 2), (2, 5), (4, 3)][: 3 if d == 2 else 0] + [(3, 2, 4), (2, 4, 3)][: 2 if d == 3 else 0]
+    cands = [g for g in cands if len(g) == d]
+    for k, ng in enumerate(cands):
+        T, N = int(rng.integers(1, 3)), int(rng.integers(1, 6))
+        dims = [int(rng.integers(1, 3)) for _ in range(rank)]
+        boxes = [(rng.uniform(-2, 2, size=d), rng.uniform(3, 6, size=d)) for _ in range(T)]
+        snaps = _mk_snapshots(np, T, N, d, rng, boxes=boxes)
+        C = rng.normal(size=[T, N] + dims)
+        sigma, cut = float(rng.uniform(0.5, 2.5)), float(rng.uniform(1.0, 4.0))
+        ppp = np.array([int(x) for x in rng.integers(0, 2, size=3)])
+        keepC = C.copy()
+        tried += 1
+        inputs = {"ngrids": list(ng), "T": T, "N": N, "trailing": dims, "sigma": sigma, "gaussian_cut": cut, "ppp": ppp[:d].tolist(),
+                  "boxbounds[0]": snaps.snapshots[0].boxbounds.tolist()}
+        try:
+            GP, GV = P.gaussian_blurring(snaps, C, np.array(ng), sigma=sigma, ppp=ppp, gaussian_cut=cut)
+        except Exception as e:
+            return {"ran": True, "failed": True, "from_model": k == 0 and cands[0] == tuple(mg), "inputs": inputs,
+                    "detail": f"raises {type(e).__name__}: {e}", "searched": tried}
+        G = int(np.prod(ng))
+        bad = None
+        if GP.shape != (T, G, d) or GV.shape != tuple([T, G] + dims):
+            bad = f"shapes {GP.shape}, {GV.shape}"
+        elif not np.array_equal(keepC, C):
+            bad = "condition was modified"
+        for n in range(T):
+            if bad:
+                break
+            s = snaps.snapshots[n]
+            axes = [[s.boxbounds[c, 0] + i * (s.boxbounds[c, 1] - s.boxbounds[c, 0]) / (ng[c] - 1) for i in range(ng[c])] for c in range(d)]
+            want_pts = [[float(v) for v in t] for t in itertools.product(*axes)]          # full Cartesian grid, x slowest
+            if not np.allclose(GP[n], np.array(want_pts), rtol=1e-9, atol=1e-12):
+                first = next(q for q in range(G) if not np.allclose(GP[n, q], want_pts[q], rtol=1e-9, atol=1e-12))
+                distinct = len({tuple(np.round(r, 9)) for r in GP[n]})
+                bad = (f"grid_positions[{n}] is not the full {'x'.join(map(str, ng))} grid in x-slowest order: entry {first} is {GP[n, first].tolist()}, "
+                       f"expected {want_pts[first]}; {distinct} distinct points of {G}")
+                break
+            L = np.diag(s.hmatrix)
+            for q in range(G):
+                acc = np.zeros(dims) if dims else 0.0
+                for j in range(N):
+                    D = GP[n, q] - s.positions[j]
+                    D = D - np.rint(D / L) * L * ppp[:d]
+                    r = math.sqrt(float(np.dot(D, D)))
+                    if abs(r - cut) < 1e-9:
+                        acc = None
+                        break
+                    if r < cut:
+                        acc = acc + math.exp(-r * r / (2 * sigma * sigma)) / math.sqrt(2 * math.pi * sigma * sigma) * keepC[n, j]
+                if acc is None:
+                    continue
+                if not np.allclose(GV[n, q], acc, rtol=1e-8, atol=1e-12):
+                    bad = f"grid_property[{n},{q}] = {np.asarray(GV[n, q]).tolist()}, Gaussian sum within the cutoff at the returned point is {np.asarray(acc).tolist()}"
+                    break
+        if bad:
+            return {"ran": True, "failed": True, "from_model": k == 0 and cands[0] == tuple(mg), "searched": tried, "inputs": inputs, "detail": bad}
+    return {"ran": True, "failed": False, "searched": tried, "detail": "real code satisfies every clause on the model grid sizes and the seeded inputs"}
+
+
+UNITS = [TimeAverage(), SpatialAverage(), GridGaussian(), GaussianBlurring()]
 
 MANIFEST = {
     "text": "tbd",
